@@ -877,6 +877,9 @@ def run(ctx):
         if stream not in mism:
             ctx.obligation(f"corr:{stream}", True)
 
+    import extra_oracles
+    from e3nn import nn as _nn, o3 as _o3
+    extra_oracles.c09_activation_history(ctx, _nn, _o3)
     ctx.notes["rule"] = (
         "seeded random layouts (mul 0..3, l 0..3, both parities, empty / repeated / unsorted irreps) x activation "
         "functions of each parity class x adversarial fibres (per copy: zero, |x| = eps(1 +- 1e-3), x1e150, x1e-150, "
